@@ -231,6 +231,17 @@ pub fn run(run: &Run) {
             idx += n as u64;
         }
     });
+    let pl: Vec<&str> = super::pipe::PAYLOADS_SPACE.iter().chain(super::pipe::PAYLOADS_FREE.iter()).chain(super::pipe::PAYLOADS_USER.iter()).copied().collect();
+    super::pipe::stress(run, "alignment_and_runs", &pl, &|s, l| {
+        let t: String = s.chars().rev().collect();
+        match check_string(s, &t, l) {
+            Ok(()) => true,
+            Err(v) => {
+                run.violate(v);
+                false
+            }
+        }
+    });
     run.prop("random_strings", run.pick(1_000_000, 30_000_000), || (gens::gstring(), gens::gstring()), |(s, t), l| check_string(s, t, l));
     run.par("numeric_boundaries", true, |tid, _n, l| {
         if tid != 0 {
